@@ -1,6 +1,58 @@
 (** Extraction of the util engine (ExtrOcamlBasic only; numbers stay inductive). *)
 Require Extraction.
 Require Import ExtrOcamlBasic.
-From Carquet Require Import Util.Crc32Spec Util.Crc32Model.
+From Coq Require Import NArith ZArith List.
+From Carquet Require Import Base.Res Util.Crc32Spec Util.Crc32Model
+     Util.Xxh64Spec Util.Xxh64Model Util.BloomSpec Util.BloomModel.
 Extraction Language OCaml.
-Extraction "extracted/util_ext.ml" Crc32Model.crc32 Crc32Model.crc32_update Crc32Model.page_crc_ok Crc32Spec.crc.
+
+(** C20: entry points under names that cannot clash between model and specification *)
+Definition m_xxh64 : list N -> N -> option N := Xxh64Model.xxh64_checked.
+Definition s_xxh64 : list N -> N -> N := Xxh64Spec.xxh64.
+
+Definition m_sgn32 (x : N) : Z := if N.ltb x 2147483648 then Z.of_N x else (Z.of_N x - 4294967296)%Z.
+Definition m_sgn64 (x : N) : Z :=
+  if N.ltb x 9223372036854775808 then Z.of_N x else (Z.of_N x - 18446744073709551616)%Z.
+
+Definition m_create := BloomModel.create.
+Definition m_insert_hash := BloomModel.insert_hash.
+Definition m_check_hash := BloomModel.check_hash.
+Definition m_insert_i32 := BloomModel.insert_i32.
+Definition m_insert_i64 := BloomModel.insert_i64.
+Definition m_insert_float := BloomModel.insert_float.
+Definition m_insert_double := BloomModel.insert_double.
+Definition m_insert_bytes := BloomModel.insert_bytes.
+Definition m_check_i32 := BloomModel.check_i32.
+Definition m_check_i64 := BloomModel.check_i64.
+Definition m_check_float := BloomModel.check_float.
+Definition m_check_double := BloomModel.check_double.
+Definition m_check_bytes := BloomModel.check_bytes.
+Definition m_write := BloomModel.write.
+Definition m_read := BloomModel.read.
+Definition m_merge := BloomModel.merge.
+Definition m_data := BloomModel.data.
+Definition m_num_bytes := BloomModel.num_bytes.
+Definition m_num_blocks := BloomModel.num_blocks.
+
+(** the specification side: filter of the requested size, typed insert/check, stored form *)
+Definition s_new (n : N) : sbbf := BloomSpec.empty (N.to_nat (BloomSpec.blocks_for n)).
+Definition s_insert_hash := BloomSpec.insert_hash.
+Definition s_check_hash := BloomSpec.check_hash.
+Definition s_insert := BloomSpec.insert.
+Definition s_check := BloomSpec.check.
+Definition s_union := BloomSpec.union.
+Definition s_to_bytes := BloomSpec.to_bytes.
+Definition s_nblocks := BloomSpec.nblocks.
+Definition s_I32 (x : N) : value := I32 (m_sgn32 x).
+Definition s_I64 (x : N) : value := I64 (m_sgn64 x).
+Definition s_F32 (x : N) : value := F32 x.
+Definition s_F64 (x : N) : value := F64 x.
+Definition s_Bytes (bs : list N) : value := Bytes bs.
+
+Extraction "extracted/util_ext.ml" Crc32Model.crc32 Crc32Model.crc32_update Crc32Model.page_crc_ok Crc32Spec.crc
+  m_xxh64 s_xxh64 m_sgn32 m_sgn64
+  m_create m_insert_hash m_check_hash m_insert_i32 m_insert_i64 m_insert_float m_insert_double m_insert_bytes
+  m_check_i32 m_check_i64 m_check_float m_check_double m_check_bytes m_write m_read m_merge
+  m_data m_num_bytes m_num_blocks
+  s_new s_insert_hash s_check_hash s_insert s_check s_union s_to_bytes s_nblocks
+  s_I32 s_I64 s_F32 s_F64 s_Bytes.
